@@ -9,7 +9,7 @@ CLAIMS = {
          "Every digraph with self-loops on <=4 (quick) / <=5 (thorough) vertices is run through scc under several key "
          "insertion orders and compared with a boolean transitive-closure oracle (partition, component identity, "
          "dependency order); random digraphs up to 8/10 vertices and generated HRG specs (nonterminal_graph, keys of "
-         "sum_products) extend this. Exhaustive within the bound, sampled beyond it; no claim above the bound.",
+         "sum_products; also with edit histories and re-queried after a rule was edited) extend this. Exhaustive within the bound, sampled beyond it; no claim above the bound.",
          "Trusted: the closure oracle in vf/props/c19.py (self-checked), Hypothesis, the adjacency-mapping input convention.",
          "DESIGN.md section 5, C19"),
  'C10': ("exhaustive enumeration of small graphs + Hypothesis random/structured/min-fill-hard graphs vs. validity predicate and exact subset-DP treewidth",
@@ -32,7 +32,7 @@ CLAIMS = {
          "Bool/Viterbi results must equal an exact Kleene reference unless the run warned; Real/Log results of runs that did not warn must lie within "
          "the derived bound tol/(1-rho) of an independently computed least fixed point (rho = Jacobian inf-norm at the fixed point, <=0.9 by "
          "deterministic rescaling), runs that warned must stay below it; method='linear' must raise ValueError exactly on non-linear recursion. "
-         "Sampled; bound derived in DESIGN.md, not tuned.",
+         "tol includes 0; a closed-form near-critical family (cycle weights within 1e-15 of one, log-weights given directly) and grammars wrapped in a diamond of sibling nonterminals extend the sampled space. Sampled; bound derived in DESIGN.md, not tuned.",
          "Trusted: vf/oracle_fgg.py (TorchEval Newton reference verified by residual; NumEval Kleene), torch autograd/linalg, Hypothesis.",
          "DESIGN.md section 5, C02"),
  'C04': ("Hypothesis-generated grammars with log-weights vs. own well-formedness predicate and exact max-plus reference (validity predicate + differential oracle; ties accepted)",
@@ -52,14 +52,14 @@ CLAIMS = {
          "DESIGN.md section 5, C05"),
  'C07': ("Hypothesis-generated typed einsum equations over patterned operands vs. brute-force semiring loop on independently interpreted dense twins (differential oracle); arg-max pointers validated by plugging back",
          "Generated signatures (<=4 indices, <=3 operands, repeated indices, empty operand list, zero-size axes) with operands drawn as typed "
-         "patterns (products, sums, shared axes, stride-0 views, arbitrary defaults) are evaluated by einsum/mv/mm in all four semirings, with and "
+         "patterns (products, sums, shared axes, stride-0 views, arbitrary defaults; also one object passed twice or with a reversed view of itself, and operands selecting disjoint summands of a shared index) are evaluated by einsum/mv/mm in all four semirings, with and "
          "without requires_grad (selecting the equation-reduction path), and compared with a numpy brute-force loop using 0*inf=0; for "
          "log_viterbi_einsum_forward the pointer tensor must have one entry per summed-out index and attain the maximum in every finite cell. Sampled.",
          "Trusted: vf/gen_pattern.py dense interpreter (written from the module docstring, self-checked on its two examples), numpy, Hypothesis. "
          "Operands of one equation share index types (documented precondition); +inf not generated for the arg-max variant.",
          "DESIGN.md section 5, C07"),
  'C06': ("Hypothesis-generated typed patterned tensors + short operation programs vs. torch on independently interpreted dense twins (differential/model-based oracle), representation invariant instrumented inside library calls",
-         "Pools of patterned tensors over common index types (products, sums, shared axes, stride-0 views, defaults incl. +-inf) are driven through "
+         "Pools of patterned tensors over common index types (products, sums, shared axes, stride-0 views, defaults incl. +-inf, NaN and values a conversion's target dtype cannot represent; scenarios for identity defaults, NaN defaults, narrowing conversions, diagonal where, projection onto the tensor's own axes) are driven through "
          "programs of 1-4 operations covering every operation named in the statement (60 operation kinds incl. in-place forms on clones, where, any, "
          "log_softmax, indexing, iteration, tolist, shape ops, stack, clone/copy_/to/default_to/project/dim_to_dense, reshape/view incl. the "
          "mandatory-success class); after every step to_dense() must equal the torch operation on the dense twins (NaN positions coincide) and the "
@@ -101,12 +101,12 @@ CLAIMS = {
          "Per generated grammar every admissible combination of {Real,Log,Viterbi,Bool} x {fixed-point,newton,linear} x j_precompute x {float64,float32} is run; "
          "values must lie within the derived bound of the independent least fixed point, Real/Log gradients within 1e-6 of independent implicit differentiation, "
          "Log = log(Real), Bool = support, Viterbi <= Log; batches of grammars are evaluated by the same driver under python, python -O and python -OO and must "
-         "produce identical output (assertions must be checks only). One listed open finding (j_precompute=True on rules with >= 2 edges) is routed by a "
+         "produce identical output (assertions must be checks only). bin/sum_product.py is also run with -o and its printed gradients compared with the in-process ones. One listed open finding (j_precompute=True on grammars with a rule satisfying one of four structural preconditions) is routed by a structural + "
          "differential predicate (fails only with j_precompute=True) and reported as KNOWN-FINDING; everything else is a violation. Sampled.",
-         "Trusted: vf/oracle_fgg.py references, vf/c11_driver.py, the interpreter flags. bin/sum_product.py itself is exercised by C14's round trip, not here.",
+         "Trusted: vf/oracle_fgg.py references, vf/c11_driver.py, the interpreter flags. bin/sum_product.py (-d -G, optionally -o) is run under the three interpreter modes per batch.",
          "DESIGN.md section 5, C11"),
  'C12': ("Hypothesis-generated grammars + random presentation transforms (metamorphic relation), both presentations also compared with the independent evaluator",
-         "Each grammar is built twice: as drawn and under a random transform (rule order, node/edge insertion order, explicit vs implicit ids, renamed "
+         "Each grammar is built twice: as drawn and under a random transform (rule order, node/edge insertion order, top-down vs bottom-up construction, explicit vs implicit ids, renamed "
          "labels, FiniteDomain vs RangeDomain, permuted domain values with factor axes permuted accordingly). sum_product in sampled semiring/method "
          "configurations, Real/Log gradients mapped back through the permutation, and the weight of the viterbi derivation must agree between the two "
          "and with the reference. Shards run under different PYTHONHASHSEED values, so set/dict iteration orders inside the solvers vary too. Sampled.",
@@ -125,14 +125,14 @@ CLAIMS = {
          "replace_edge call is checked against the statement clause by clause (only that edge removed, externals identified with attachment nodes in order, "
          "all other nodes/edges copied once as fresh objects with unused ids, labels and attachment order kept, graph/ext/replacement otherwise untouched; wrong "
          "type => ValueError and no change); the final graphs of all orders and of an independent expansion coincide under provenance naming; derive() yields an "
-         "isomorphic graph with a total assignment whose weight product equals the product over rule instances. Sampled.",
+         "isomorphic graph with a total assignment whose weight product equals the product over rule instances (also when equal sub-derivations are one shared object). Sampled.",
          "Trusted: vf/oracle_fgg.py expand (independent replacement), vf/iso.py, Hypothesis. Right-hand sides have distinct external nodes.",
          "DESIGN.md section 5, C15"),
  'C20': ("Hypothesis-generated domains, weight arguments of right and wrong shapes and legal/illegal bindings: round-trip, acceptance/rejection and before/after-table oracles",
          "FiniteDomain/RangeDomain of size 0-6 over mixed hashable values: numberize/denumberize inverse, contains on members and non-members, equality by "
-         "content. FiniteFactor with nested-list, Tensor and typed PatternedTensor weights: accepted exactly when the shape is the tuple of domain sizes (one "
+         "content (also after the caller mutates the list the domain was built from). FiniteFactor with nested-list, Tensor and typed PatternedTensor weights: accepted exactly when the shape is the tuple of domain sizes (one "
          "size off, permuted, extra/missing dimension, ragged list must raise), apply() equals the dense entry, equality by domains and dense weights "
-         "(re-patterned copies equal, perturbed or other-domain copies unequal). add_factor/new_finite_factor/add_domain/shape on FGG and FactorGraph in legal "
+         "(re-patterned copies equal, perturbed or other-domain copies unequal). add_factor/new_finite_factor/add_domain/shape on FGG and FactorGraph (label types may repeat a node label) in legal "
          "and nine illegal scenarios: accepted iff legal, otherwise ValueError/KeyError with the binding tables unchanged. Sampled.",
          "Trusted: vf/gen_pattern.py, Python equality of the generated values, Hypothesis.",
          "DESIGN.md section 5, C20"),
@@ -144,7 +144,7 @@ CLAIMS = {
          "Trusted: the predicate/signature/DP code in vf/props/c17.py, Hypothesis; the pair->name map is read via fggs.conjunction.nonterminal_pairs and then checked.",
          "DESIGN.md section 5, C17"),
  'C16': ("model-based stateful testing: Hypothesis-generated operation sequences interpreted against a pool of Graph/FactorGraph/HRG/FGG objects with public-accessor snapshots before and after every call (history invariants)",
-         "Sequences of up to 40 (60) public API calls -- including calls that must be rejected: duplicate ids, 'twin' nodes/edges re-using an id with other "
+         "Sequences of up to 40 (60) public API calls -- including calls that must be rejected: duplicate ids (against the graph and among the arguments of one call), 'twin' nodes/edges re-using an id with other "
          "content, conflicting label types, terminal start symbols, wrong arity/domains, ill-shaped weights -- are applied to a pool of live objects. After "
          "every step: structural invariants of every object, failure atomicity (a raising call changes nothing), non-interference (only the target "
          "changes, so copies are independent, also under in-place changes of factor weights), copy == original incl. tables/domains/weights, and == is "
@@ -152,7 +152,7 @@ CLAIMS = {
          "Trusted: the snapshot/invariant code in vf/props/c16.py, Hypothesis. Graphs handed to a rule are frozen (stated precondition).",
          "DESIGN.md section 5, C16"),
  'C18': ("model-based stateful testing: Hypothesis-generated query sequences on shared objects with deep before/after snapshots (purity invariant) and memoised first results (reproducibility); in-place operations on clones vs. source snapshots",
-         "A grammar is built once (dense/patterned weights, with or without requires_grad, implicit/explicit ids) and 4-10 queries -- sum_product/sum_products in all "
+         "A grammar is built once (dense/patterned weights incl. defaults other than the semiring zero, with or without requires_grad, implicit/explicit ids) and 4-10 queries -- sum_product/sum_products in all "
          "semirings and methods, viterbi, the three factorize entry points x 3 methods, conjoin_hrgs (incl. a pair of grammars over shared skeletons), fgg_to_json/"
          "hrg_to_json -- are run in a drawn order with repetitions; every argument's deep snapshot (object identities, ids, tables, storage bytes, strides, "
          "offsets, patterns, defaults, requires_grad, grad is None) must be unchanged by every call and every repeated query must return the same result "
